@@ -9,7 +9,7 @@
 // List-like invocations with parentheses will be formatted as function calls,
 // and those with brackets will be formatted as array literals.
 
-use std::collections::HashMap;
+use std::collections::BTreeMap;
 use std::panic::{AssertUnwindSafe, catch_unwind};
 
 use rustc_ast::token::{Delimiter, Token, TokenKind};
@@ -501,7 +501,7 @@ pub(crate) fn rewrite_macro_def(
 }
 
 fn register_metavariable(
-    map: &mut HashMap<String, String>,
+    map: &mut BTreeMap<String, String>,
     result: &mut String,
     name: &str,
     dollar_count: usize,
@@ -520,10 +520,10 @@ fn register_metavariable(
 // Replaces `$foo` with `zfoo`. We must check for name overlap to ensure we
 // aren't causing problems.
 // This should also work for escaped `$` variables, where we leave earlier `$`s.
-fn replace_names(input: &str) -> Option<(String, HashMap<String, String>)> {
+fn replace_names(input: &str) -> Option<(String, BTreeMap<String, String>)> {
     // Each substitution will require five or six extra bytes.
     let mut result = String::with_capacity(input.len() + 64);
-    let mut substs = HashMap::new();
+    let mut substs = BTreeMap::new();
     let mut dollar_count = 0;
     let mut cur_name = String::new();
 
@@ -531,6 +531,18 @@ fn replace_names(input: &str) -> Option<(String, HashMap<String, String>)> {
         if kind != FullCodeCharKind::Normal {
             result.push(c);
         } else if c == '$' {
+            // A metavariable glued to an identifier (`xz$ab`, `$a$b`): its placeholder `zab` would
+            // merge with what stands in front of it, and putting the names back afterwards would
+            // depend on the order in which they are tried.
+            let glued = !cur_name.is_empty()
+                || (dollar_count == 0
+                    && result
+                        .chars()
+                        .next_back()
+                        .is_some_and(|p| p.is_alphanumeric() || p == '_'));
+            if glued {
+                return None;
+            }
             dollar_count += 1;
         } else if dollar_count == 0 {
             result.push(c);
